@@ -274,7 +274,22 @@ func tConcat(as ...Term) Term {
 	if all {
 		return mkStr(sb.String())
 	}
-	// merge adjacent constants
+	// flatten nested concatenations, merge adjacent constants
+	var flat []Term
+	for _, a := range as {
+		if a.C == nil && strings.HasPrefix(a.S, "(str.++ ") {
+			for _, pt := range splitTop(a.S[8 : len(a.S)-1]) {
+				if strings.HasPrefix(pt, "\"") {
+					flat = append(flat, mkStr(decodeSMTString(strings.ReplaceAll(pt[1:len(pt)-1], "\"\"", "\""))))
+				} else {
+					flat = append(flat, Term{S: pt, Sort: SStr})
+				}
+			}
+			continue
+		}
+		flat = append(flat, a)
+	}
+	as = flat
 	var parts []Term
 	for _, a := range as {
 		if s, ok := a.C.(string); ok {
@@ -296,8 +311,18 @@ func tConcat(as ...Term) Term {
 	return app(SStr, "str.++", parts...)
 }
 
+func isLiteralIdx(s string) bool {
+	if s == "" {
+		return false
+	}
+	if s[0] == '"' || (s[0] >= '0' && s[0] <= '9') {
+		return true
+	}
+	return strings.HasPrefix(s, "(- ")
+}
+
 func tSelect(arr, idx Term, elemSort string) Term {
-	// read-over-write simplification on syntactic store chains with constant / identical indices
+	// read-over-write on syntactic store chains: identical index -> stored value; two different literals -> skip
 	s := arr.S
 	for strings.HasPrefix(s, "(store ") {
 		parts := splitTop(s[7 : len(s)-1])
@@ -305,12 +330,47 @@ func tSelect(arr, idx Term, elemSort string) Term {
 			break
 		}
 		if parts[1] == idx.S {
-			return Term{S: parts[2], Sort: elemSort}
+			t := Term{S: parts[2], Sort: elemSort}
+			if k, ok := literalTermAny(parts[2], elemSort); ok {
+				return k
+			}
+			return t
+		}
+		if isLiteralIdx(parts[1]) && isLiteralIdx(idx.S) {
+			s = parts[0]
+			continue
 		}
 		break
 	}
-	return Term{S: "(select " + arr.S + " " + idx.S + ")", Sort: elemSort}
+	if strings.HasPrefix(s, "((as const ") && elemSort == SBool {
+		if strings.HasSuffix(s, " false)") {
+			return tFalse
+		}
+		if strings.HasSuffix(s, " true)") {
+			return tTrue
+		}
+	}
+	return Term{S: "(select " + s + " " + idx.S + ")", Sort: elemSort}
 }
+
+func literalTermAny(s, sort string) (Term, bool) {
+	switch sort {
+	case SBool:
+		if s == "true" {
+			return tTrue, true
+		}
+		if s == "false" {
+			return tFalse, true
+		}
+	case SInt:
+		var n int64
+		if _, err := fmt.Sscanf(s, "%d", &n); err == nil && fmt.Sprintf("%d", n) == s {
+			return mkInt(n), true
+		}
+	}
+	return Term{}, false
+}
+
 func tStore(arr, idx, val Term) Term {
 	return Term{S: "(store " + arr.S + " " + idx.S + " " + val.S + ")", Sort: arr.Sort}
 }
